@@ -202,6 +202,14 @@ def fresh_vs_history(R, rng, tier):
         "helper.py": "import subprocess\nsubprocess.Popen('ls -l',  # nosec B602\n                 shell=True)  # nosec B607\nassert x  # nosec B101, B602\n",
         "service.py": "import subprocess\nsubprocess.Popen('ls -l', shell=True)  # nosec B602\nsubprocess.call('ls *', shell=True)  # nosec B607\nassert y  # nosec B101, B602\n",
         "third.py": "import subprocess, pickle\nsubprocess.Popen('ps', shell=True)  # nosec B607\npickle.loads(z)  # nosec B602\n",
+        # data-flow helpers of a check walking with/def/loop blocks: one file assigns a request value inside such a block, the
+        # next has only a literal in the same shape
+        "flow_a.py": "from django.utils.safestring import mark_safe\ndef zz_f(zz_r):\n    with zz_o:\n        zz_v = zz_r.GET['q']\n    def zz_in():\n        zz_w = zz_r.GET['w']\n"
+                     "    return mark_safe(zz_v)\n",
+        "flow_b.py": "from django.utils.safestring import mark_safe\ndef zz_g():\n    zz_v = 'lit'\n    with zz_o:\n        pass\n    def zz_in():\n        pass\n    return mark_safe(zz_v)\n",
+        # a file only an older grammar accepts (skipped), then files using syntax of 3.8 and later
+        "gram_a.py": "async = 1\nawait = 2\nassert async\n",
+        "gram_b.py": "if (zz_n := 10) > 5:\n    assert zz_n\ndef zz_p(zz_a, /, zz_b):\n    exec(zz_a)\nmatch zz_n:\n    case 1:\n        assert zz_n\n",
     }
     fresh = {}
     for fn, src in corpus.items():
@@ -215,7 +223,8 @@ def fresh_vs_history(R, rng, tier):
         except Exception:
             R.violations.append({"what": "no JSON report from a fresh process for %s" % fn, "input": src, "observed": p.stderr.decode()[-300:], "signature": None})
             return
-    for order in (["helper.py", "service.py", "third.py"], ["third.py", "helper.py", "service.py"], ["service.py", "third.py", "helper.py"]):
+    for order in (["helper.py", "service.py", "third.py"], ["third.py", "helper.py", "service.py"], ["service.py", "third.py", "helper.py"],
+                  ["flow_a.py", "flow_b.py", "gram_a.py", "gram_b.py"], ["gram_a.py", "gram_b.py", "flow_a.py", "flow_b.py", "flow_a.py", "flow_b.py"]):
         for fn in order:
             m = impl.make_manager()
             m.files_list = [os.path.join(d, fn)]
